@@ -107,12 +107,27 @@ class Controller:
             return ctl._orig_start(t)
 
         threading.Thread.start = start
+        self._orig_join = threading.Thread.join
+
+        def join(t, timeout=None):
+            # joining a thread that is only waiting for its teardown step lets that teardown happen
+            ts = ctl._by_thread.get(t)
+            if ts is not None and not ctl._free and threading.current_thread() in ctl._by_thread:
+                with ctl._cv:
+                    if ts.status == "at_line" and ts.pseudo == THREAD_EXIT:
+                        ts.status = "running"
+                        ts.pseudo = "<woken>"
+                        ctl._cv.notify_all()
+            return ctl._orig_join(t, timeout)
+
+        threading.Thread.join = join
         self._active = True
         return self
 
     def __exit__(self, *exc):
         self.release()
         threading.Thread.start = self._orig_start
+        threading.Thread.join = self._orig_join
         for code in self._filters:
             _mon.set_local_events(TOOL_ID, code, 0)
         _mon.register_callback(TOOL_ID, _mon.events.LINE, None)
@@ -147,7 +162,7 @@ class Controller:
         def run():
             try:
                 orig_run()
-                if role in ctl._exit_roles:
+                if role in ctl._exit_roles and ts.pseudo != "<woken>":      # (a waiter released by CtlEvent.set is being joined)
                     ctl.pseudo_point(THREAD_EXIT)
             finally:
                 with ctl._cv:
@@ -175,7 +190,7 @@ class Controller:
             ts.pseudo = pseudo
             ts.frame = sys._getframe(2)
             self._cv.notify_all()
-            while self._grant is not ts and not self._free:
+            while self._grant is not ts and not self._free and ts.pseudo != "<woken>":
                 self._cv.wait()
             if self._grant is ts:
                 self._grant = None
@@ -228,7 +243,7 @@ class Controller:
                 self._cv.wait(left)
             done = [ts for ts in self._threads.values() if ts.status == "done" and ts.thread.is_alive()]
         for ts in done:     # make Thread.is_alive() of a finished thread False before the next step
-            ts.thread.join(self._timeout)
+            self._orig_join(ts.thread, self._timeout)
             if ts.thread.is_alive():
                 raise Stuck("finished thread %s does not terminate" % ts.name)
 
